@@ -223,6 +223,7 @@ func runRead(lines []string) {
 				fmt.Fprintf(out, "getmd ok %s %s\n", hx([]byte(md.Name)), kvString(md.Metadata))
 			case "messages":
 				into := len(op) > 1 && op[1] == "into"
+				viaRange := len(op) > 1 && op[1] == "range"
 				cb := func(md *mcap.Metadata) error {
 					fmt.Fprintf(out, "md %s %s\n", hx([]byte(md.Name)), kvString(md.Metadata))
 					return nil
@@ -252,8 +253,47 @@ func runRead(lines []string) {
 					var c *mcap.Channel
 					var m *mcap.Message
 					var err error
-					if into {
+					if viaRange {
+						// the library's own loop (mcap.Range): every message goes through the callback, the end of
+						// the iteration is a nil return, any other error is returned
+						n := 0
+						err = mcap.Range(it, func(s *mcap.Schema, c *mcap.Channel, m *mcap.Message) error {
+							n++
+							if sl, live, _, ok := mcap.VerifSlotStats(it); ok {
+								if sl > maxSlots {
+									maxSlots = sl
+								}
+								if live > maxLive {
+									maxLive = live
+								}
+							}
+							fmt.Fprintln(out, "msg "+schemaString(s)+" "+channelString(c)+" "+messageString(m))
+							return nil
+						})
+						if sl, live, _, ok := mcap.VerifSlotStats(it); ok {
+							if sl > maxSlots {
+								maxSlots = sl
+							}
+							if live > maxLive {
+								maxLive = live
+							}
+						}
+						if err == nil {
+							fmt.Fprintln(out, "endmsg err:eof")
+						} else {
+							fmt.Fprintln(out, "endmsg", res(err))
+						}
+						break
+					}
+					if into && i%4 == 3 {
+						// a nil message is allowed: the iterator then allocates one
+						s, c, m, err = it.NextInto(nil)
+					} else if into {
 						s, c, m, err = it.NextInto(reused)
+						if err == nil && m != reused {
+							fmt.Fprintln(out, "endmsg err:nextinto-did-not-fill-the-message-passed-in")
+							break
+						}
 					} else {
 						s, c, m, err = it.Next(nil)
 					}
